@@ -237,7 +237,7 @@ def run(tier: str, seed: int) -> int:
         from .. import session
         import jax.numpy as _jnp
         import exponax as _ex
-        session.run_for(run_, tier, seed, _ex, _jnp, ['resample'], PID)
+        session.run_for(run_, tier, seed, _ex, _jnp, ['resample', 'interp'], PID)
     return run_.finish()
 
 
